@@ -6,6 +6,7 @@ import (
 	"go/ast"
 	"go/token"
 	"go/types"
+	"sort"
 	"strings"
 
 	"golang.org/x/tools/go/packages"
@@ -354,6 +355,42 @@ func calleeBodies(m *model.Model, p *packages.Package, call *ast.CallExpr) []str
 	return out
 }
 
+// calleeFuncNodes is calleeBodies returning the function nodes (*ast.FuncDecl / *ast.FuncLit) themselves, for rules that
+// need the parameters as well as the body.
+func calleeFuncNodes(m *model.Model, p *packages.Package, call *ast.CallExpr) []struct {
+	Pkg *packages.Package
+	Fn  ast.Node
+} {
+	type ref = struct {
+		Pkg *packages.Package
+		Fn  ast.Node
+	}
+	var out []ref
+	info := p.TypesInfo
+	if cl := model.Callee(info, call); cl != nil {
+		if d := m.Decls[cl]; d != nil && d.Decl != nil && d.Decl.Body != nil {
+			out = append(out, ref{d.Pkg, d.Decl})
+		}
+		return out
+	}
+	if id, ok := ast.Unparen(call.Fun).(*ast.Ident); ok {
+		if o := objOf(info, id); o != nil {
+			for _, d := range m.Defs[o] {
+				if d.Expr == nil {
+					continue
+				}
+				if l, ok := ast.Unparen(d.Expr).(*ast.FuncLit); ok {
+					out = append(out, ref{p, l})
+				}
+			}
+		}
+	}
+	if l, ok := ast.Unparen(call.Fun).(*ast.FuncLit); ok {
+		out = append(out, ref{p, l})
+	}
+	return out
+}
+
 // findCallTransitive reports the position, inside root, of the first call through which a call satisfying pred is
 // reached — the call itself, or a call of a same-repository function / local closure whose body reaches one (helpers
 // extracted from a handler count as the handler). token.NoPos when there is none.
@@ -630,4 +667,29 @@ func atomicFlagStore(m *model.Model, p *packages.Package, call *ast.CallExpr) (t
 		return objOf(info, id), v, true
 	}
 	return nil, 0, false
+}
+
+// chanLabel names a channel variable of a subscribe closure by its ordinal among the channel variables the closure
+// declares (source order), so that obligation keys survive a rename: "chan#1".
+func chanLabel(sc *model.SC, ch types.Object) string {
+	if ch == nil {
+		return "chan#?"
+	}
+	var decls []token.Pos
+	for id, o := range sc.Pkg.TypesInfo.Defs {
+		v, ok := o.(*types.Var)
+		if !ok || v.IsField() || id.Pos() < sc.Lit.Pos() || id.Pos() >= sc.Lit.End() {
+			continue
+		}
+		if _, isChan := v.Type().Underlying().(*types.Chan); isChan {
+			decls = append(decls, v.Pos())
+		}
+	}
+	sort.Slice(decls, func(i, j int) bool { return decls[i] < decls[j] })
+	for i, p := range decls {
+		if p == ch.Pos() {
+			return fmt.Sprintf("chan#%d", i+1)
+		}
+	}
+	return "chan-" + ch.Name() // a parameter or an outer variable: not declared by the closure
 }
